@@ -324,7 +324,6 @@ theorem ghost_branches_unreachable (s : St) (h : Inv s) :
     rw [hA] at hlen; simp at hlen
     omega
 
-set_option maxHeartbeats 1000000 in
 /-- a pending inserting `base` store of the owner belongs to put just before its unlock, targets the
     slot below the logical base as the owner sees it (`lb + sh`: `sh ≠ 0` only while the shift entry
     of a re-centring is still buffered in front of it), and the slot store it is ordered after
